@@ -118,6 +118,7 @@ type tr struct {
 	opaque     map[string]bool     // Go locals whose defining expression could not be translated: fine as long as nothing translated uses them
 	file       *ast.File           // the file being translated (helper inlining)
 	fd         *ast.FuncDecl       // the function being translated (set by prepare)
+	closures   map[string]*ast.FuncLit // local `name := func(…) {…}` definitions seen so far
 	depth      int                 // inlining depth
 }
 
@@ -206,6 +207,11 @@ func (t *tr) aliasesOnPathTo(target ast.Node) {
 
 // resolveHelper finds the same-file function or method a call names (methods: unique by name), with the receiver expression.
 func (t *tr) resolveHelper(c *ast.CallExpr) (*ast.FuncDecl, ast.Expr) {
+	if id, ok := c.Fun.(*ast.Ident); ok {
+		if lit, ok := t.closures[id.Name]; ok {
+			return &ast.FuncDecl{Name: id, Type: lit.Type, Body: lit.Body}, nil
+		}
+	}
 	if t.file == nil {
 		return nil, nil
 	}
@@ -230,7 +236,7 @@ func (t *tr) resolveHelper(c *ast.CallExpr) (*ast.FuncDecl, ast.Expr) {
 
 // bindHelper makes a sub-translator for the body of helper fd called as c: parameters and receiver stand for the arguments.
 func (t *tr) bindHelper(fd *ast.FuncDecl, recv ast.Expr, c *ast.CallExpr, sp Spec) (*tr, bool) {
-	t2 := &tr{sp: sp, file: t.file, depth: t.depth + 1}
+	t2 := &tr{sp: sp, file: t.file, depth: t.depth + 1, closures: t.closures}
 	for k, v := range t.aliases {
 		t2.alias(k, v)
 	}
@@ -318,7 +324,7 @@ func (t *tr) inlineCall(c *ast.CallExpr) (string, bool) {
 	sp := t.sp
 	sp.Ret = ""
 	sp.ParamNames = nil
-	t2 := &tr{sp: sp, file: t.file, depth: t.depth + 1}
+	t2 := &tr{sp: sp, file: t.file, depth: t.depth + 1, closures: t.closures}
 	for k, v := range t.aliases {
 		t2.alias(k, v)
 	}
@@ -407,6 +413,9 @@ func (t *tr) subst(e ast.Expr) ast.Expr {
 	case *ast.BinaryExpr:
 		return &ast.BinaryExpr{X: t.subst(x.X), Op: x.Op, Y: t.subst(x.Y)}
 	case *ast.IndexExpr:
+		if a, ok := t.aliases["idx:"+norm(src(x))]; ok {
+			return a
+		}
 		return &ast.IndexExpr{X: t.subst(x.X), Index: t.subst(x.Index)}
 	case *ast.CallExpr:
 		args := make([]ast.Expr, len(x.Args))
@@ -616,6 +625,12 @@ func (t *tr) expr(e ast.Expr) string {
 		case "time.Since":
 			if len(x.Args) == 1 {
 				return "(T.sub now_ " + t.expr(x.Args[0]) + ")"
+			}
+		}
+		// builtins max / min
+		if id, ok := x.Fun.(*ast.Ident); ok && (id.Name == "max" || id.Name == "min") && len(x.Args) == 2 {
+			if _, shadow := t.sp.Calls[id.Name]; !shadow {
+				return "(" + id.Name + " " + t.expr(x.Args[0]) + " " + t.expr(x.Args[1]) + ")"
 			}
 		}
 		// calls of other regenerated kernels (Spec.Calls)
@@ -942,6 +957,38 @@ func (t *tr) effectWithArgs(eff string, call *ast.CallExpr) string {
 	return eff
 }
 
+// indexLoopAsRange recognises `for i := 0; i < len(X); i++ { body }` (X a pure access path, i not assigned in body) and returns
+// the equivalent range statement; `X[i]` in the body stands for the loop's element (named as Spec.RangeCond["elem:X"] says, else "elem").
+func (t *tr) indexLoopAsRange(f *ast.ForStmt) (*ast.RangeStmt, bool) {
+	init, ok := f.Init.(*ast.AssignStmt)
+	if !ok || init.Tok != token.DEFINE || len(init.Lhs) != 1 || len(init.Rhs) != 1 || src(init.Rhs[0]) != "0" {
+		return nil, false
+	}
+	iv, ok := init.Lhs[0].(*ast.Ident)
+	if !ok {
+		return nil, false
+	}
+	cond, ok := f.Cond.(*ast.BinaryExpr)
+	if !ok || cond.Op != token.LSS || src(cond.X) != iv.Name {
+		return nil, false
+	}
+	lc, ok := cond.Y.(*ast.CallExpr)
+	if !ok || src(lc.Fun) != "len" || len(lc.Args) != 1 || !pureAccess(lc.Args[0]) {
+		return nil, false
+	}
+	post, ok := f.Post.(*ast.IncDecStmt)
+	if !ok || post.Tok != token.INC || src(post.X) != iv.Name {
+		return nil, false
+	}
+	X := lc.Args[0]
+	canon := "elem"
+	if c, ok := lookup(t.sp.RangeCond, "elem:"+src(t.subst(X))); ok {
+		canon = c
+	}
+	t.alias("idx:"+norm(src(X))+"["+iv.Name+"]", ast.NewIdent(canon))
+	return &ast.RangeStmt{Key: iv, Value: ast.NewIdent(canon), Tok: token.DEFINE, X: X, Body: f.Body}, true
+}
+
 // appendEffectVar: the Lean variable an `x = append(x, v)` statement sets through Spec.AppendEffect, or "".
 func (t *tr) appendEffectVar(x *ast.AssignStmt) string {
 	if len(x.Rhs) != 1 || len(t.sp.AppendEffect) == 0 {
@@ -1068,7 +1115,18 @@ func (t *tr) block(b []ast.Stmt, tail string, ind string) string {
 			}
 		}
 		failf(s, "unsupported expression statement %s", src(s))
+	case *ast.ForStmt:
+		// `for i := 0; i < len(X); i++ { … X[i] … }` is `for i, e := range X { … e … }`
+		if r, ok := t.indexLoopAsRange(x); ok {
+			return t.block(append([]ast.Stmt{r}, rest...), tail, ind)
+		}
+		failf(s, "unsupported statement %T: %s", s, src(s))
 	case *ast.RangeStmt:
+		if canon, ok := lookup(t.sp.RangeCond, "elem:"+src(t.subst(x.X))); ok {
+			if id, isId := x.Value.(*ast.Ident); isId && id.Name != canon && id.Name != "_" {
+				t.alias(id.Name, ast.NewIdent(canon))
+			}
+		}
 		if !hasReturn(x.Body.List) {
 			vs0 := map[string]bool{}
 			t.assigned(x.Body.List, vs0)
@@ -1092,9 +1150,9 @@ func (t *tr) block(b []ast.Stmt, tail string, ind string) string {
 		if !ok {
 			failf(s, "range loop over %s: body is not a single if-return", src(x.X))
 		}
-		key := src(is.Cond)
+		key := src(t.subst(is.Cond))
 		if is.Init != nil {
-			key = src(is.Init) + " ; " + key
+			key = t.initKey(is.Init) + " ; " + key
 		}
 		if want, ok := lookup(t.sp.RangeCond, "cond:"+rx); !ok || norm(want) != norm(key) {
 			failf(s, "range loop over %s: loop test is `%s`, expected `%s`", src(x.X), key, want)
@@ -1215,6 +1273,17 @@ func (t *tr) block(b []ast.Stmt, tail string, ind string) string {
 				}
 			}
 			return t.block(rest, tail, ind)
+		}
+		if x.Tok == token.DEFINE && len(x.Lhs) == 1 && len(x.Rhs) == 1 && t.sp.Inline {
+			if lit, ok := x.Rhs[0].(*ast.FuncLit); ok {
+				if id, ok := x.Lhs[0].(*ast.Ident); ok {
+					if t.closures == nil {
+						t.closures = map[string]*ast.FuncLit{}
+					}
+					t.closures[id.Name] = lit
+					return t.block(rest, tail, ind)
+				}
+			}
 		}
 		if x.Tok == token.DEFINE && len(x.Lhs) == len(x.Rhs) {
 			// hoisted reads (`leaf, proof := rsp.Leaf, rsp.Proof`): a local defined by a pure access path that is not itself
@@ -1339,6 +1408,13 @@ func (t *tr) block(b []ast.Stmt, tail string, ind string) string {
 				y := *x
 				y.Init = nil
 				return pre + t.block(append([]ast.Stmt{&y}, rest...), tail, ind)
+			} else if t.sp.Lazy {
+				// any other init statement: run it as a statement, then the `if` without it (its names stay visible afterwards,
+				// which is harmless as long as they are not reused with another meaning — a later translated use would differ
+				// and break the equality with the Spec copy, never pass silently)
+				y := *x
+				y.Init = nil
+				return t.block(append([]ast.Stmt{x.Init, &y}, rest...), tail, ind)
 			} else {
 				failf(s, "if with init statement unsupported: %s ; %s", src(x.Init), src(x.Cond))
 			}
